@@ -384,7 +384,7 @@ func C17(c *core.Ctx) {
 
 	// defaults of rib/register
 	if reg := c.Fn("R17.2", "fw/mgmt", "RIBModule", "register"); reg != nil {
-		sl := &core.Slicer{P: p}
+		sl := &core.Slicer{P: p, Shared: true}
 		for _, ci := range core.FindCallsDeep(reg, core.CalleeID{Pkg: "fw/table", Recv: "RibTable", Name: "AddEncRoute"}) {
 			_, a := core.CallArgs(ci.Common())
 			route := a[1]
@@ -449,6 +449,91 @@ func C17(c *core.Ctx) {
 			chk("Cost", func(l core.Leaf) bool { k, ok := core.ConstInt(l.Val); return ok && k == 0 }, "0")
 			chk("Flags", func(l core.Leaf) bool { k, ok := core.ConstInt(l.Val); return ok && k == 1 }, "child-inherit (1)")
 		}
+	}
+
+	// a face named in the command is used only if it exists: the FaceId parameter reaches
+	// the route / next hop that is installed only along paths that passed
+	// FaceTable.Get(<that id>) != nil (the 410 refusal is taken otherwise)
+	for _, h := range [][2]string{{"RIBModule", "register"}, {"FIBModule", "add"}} {
+		fn := c.Fn("R17.2", "fw/mgmt", h[0], h[1])
+		if fn == nil {
+			continue
+		}
+		isNamedFace := func(v ssa.Value) bool {
+			u, ok := core.Strip(v).(*ssa.UnOp)
+			if !ok || u.Op != token.MUL {
+				return false
+			}
+			_, okF := core.FieldOf(u.X, "FaceId")
+			return okF
+		}
+		sl := &core.Slicer{P: p, Shared: true, Root: fn}
+		exists := &core.Atom{Name: "FaceTable.Get(id)!=nil", Match: func(cond ssa.Value) (int, int) {
+			op, x, y, ok := core.Cmp(cond)
+			if !ok || (op != token.EQL && op != token.NEQ) || !core.IsNilConst(y) {
+				return 0, 0
+			}
+			cl, isCall := core.Strip(x).(*ssa.Call)
+			if !isCall {
+				return 0, 0
+			}
+			if id, okID := core.Callee(&cl.Call); !okID || id.Name != "Get" || id.Recv != "Table" {
+				return 0, 0
+			}
+			_, a := core.CallArgs(&cl.Call)
+			if len(a) != 1 {
+				return 0, 0
+			}
+			named := false
+			for _, l := range sl.Leaves(a[0]) {
+				if strings.HasSuffix(strings.Join(l.Via, ""), ".FaceId*") {
+					named = true
+				}
+			}
+			if !named {
+				return 0, 0
+			}
+			return core.Iff(op == token.NEQ)
+		}}
+		var uses []struct {
+			at ssa.Instruction
+			v  ssa.Value
+		}
+		for _, ci := range core.FindCallsDeep(fn, core.CalleeID{Pkg: "fw/table", Recv: "FibStrategy", Name: "InsertNextHopEnc"}) {
+			_, a := core.CallArgs(ci.Common())
+			if len(a) == 3 {
+				uses = append(uses, struct {
+					at ssa.Instruction
+					v  ssa.Value
+				}{ci, a[1]})
+			}
+		}
+		core.InstrsDeep(fn, func(in ssa.Instruction) {
+			if _, v, ok := storeToField(in, "Route", "FaceID"); ok {
+				uses = append(uses, struct {
+					at ssa.Instruction
+					v  ssa.Value
+				}{in, v})
+			}
+		})
+		restore := core.WithRoot(fn)
+		cut, per := core.CutEdgesDeep(fn, pos(exists))
+		okAll, nUse := true, 0
+		for _, u := range uses {
+			if !core.FlowPath(u.v, u.at, isNamedFace, nil, nil) {
+				continue
+			}
+			nUse++
+			if core.FlowPath(u.v, u.at, isNamedFace, cut, nil) || per[0] == 0 {
+				// (id, ok) handed up by a helper: the use sits behind ok == true, and every
+				// return that hands up the named id returns the existence test as ok
+				if !valueOkHelper(fn, u.at, u.v, isNamedFace, exists) {
+					okAll = false
+				}
+			}
+		}
+		restore()
+		c.Decide(okAll && nUse > 0, "R17.2", "named-face-exists:"+h[0]+"."+h[1], p.Pos(fn.Pos()), "the FaceId parameter reaches the installed route / next hop only through the edge asserting FaceTable.Get(id) != nil", h[0]+"."+h[1]+" can install a route or next hop on the face named in the command without having found that face in the face table (the existence test is missing or looks up a different id): the command is answered 200 for a face that does not exist")
 	}
 
 	// ---- R17.3
@@ -620,4 +705,88 @@ func isDerefOfField(v ssa.Value, field string) bool {
 	}
 	_, ok = core.FieldOf(u.X, field)
 	return ok
+}
+
+// valueOkHelper: v (used at `at` in fn) is component i of the result of a helper that also
+// returns a boolean component j; `at` is reachable only when that boolean is true; and
+// every return of the helper whose component i can carry a source value has a component
+// j that is false, is the expression of atom a (true ⇒ a), or is reached only through
+// edges asserting a.
+func valueOkHelper(fn *ssa.Function, at ssa.Instruction, v ssa.Value, isSource func(ssa.Value) bool, a *core.Atom) bool {
+	ex, ok := core.Strip(v).(*ssa.Extract)
+	if !ok {
+		if phi, isPhi := core.Strip(v).(*ssa.Phi); isPhi {
+			// every edge that can carry the source qualifies
+			any := false
+			for _, e := range phi.Edges {
+				if _, isC := core.ConstInt(e); isC {
+					continue
+				}
+				if !valueOkHelper(fn, at, e, isSource, a) {
+					return false
+				}
+				any = true
+			}
+			return any
+		}
+		return false
+	}
+	cl, ok := ex.Tuple.(*ssa.Call)
+	if !ok {
+		return false
+	}
+	h := cl.Call.StaticCallee()
+	if h == nil || h.Blocks == nil {
+		return false
+	}
+	for j := 0; j < h.Signature.Results().Len(); j++ {
+		bt, isB := h.Signature.Results().At(j).Type().Underlying().(*types.Basic)
+		if j == ex.Index || !isB || bt.Kind() != types.Bool {
+			continue
+		}
+		okTrue := &core.Atom{Name: "helper-ok", Match: func(cond ssa.Value) (int, int) {
+			if e2, isE := core.Strip(cond).(*ssa.Extract); isE && e2.Tuple == ssa.Value(cl) && e2.Index == j {
+				return 1, -1
+			}
+			return 0, 0
+		}}
+		if g := core.GateDeep(fn, []ssa.Instruction{at}, core.Lit{A: okTrue, Want: true}); !g.OK || g.PassEdges == 0 {
+			continue
+		}
+		all, n := true, 0
+		core.Instrs(h, func(in ssa.Instruction) {
+			r, isR := in.(*ssa.Return)
+			if !isR || len(r.Results) <= j || len(r.Results) <= ex.Index {
+				return
+			}
+			if !core.FlowPath(r.Results[ex.Index], r, isSource, nil, nil) {
+				return
+			}
+			n++
+			if b, isC := core.ConstBool(r.Results[j]); isC {
+				if b {
+					// ok is true unconditionally: the path to this return must be guarded
+					if g := core.Gate(h, []ssa.Instruction{r}, core.Lit{A: a, Want: true}); !g.OK || g.PassEdges == 0 {
+						all = false
+					}
+				}
+				return
+			}
+			ec, neg := core.StripNot(r.Results[j])
+			onT, onF := a.Match(ec)
+			if neg {
+				onT, onF = onF, onT
+			}
+			_ = onF
+			if onT <= 0 {
+				if g := core.Gate(h, []ssa.Instruction{r}, core.Lit{A: a, Want: true}); !g.OK || g.PassEdges == 0 {
+					all = false
+				}
+			}
+		})
+		if all && n > 0 {
+			return true
+		}
+	}
+	return false
 }
